@@ -53,6 +53,19 @@ class StdHooks(KernelHooks):
                 return None
             if meth == 'base':
                 return this_cell
+            if meth in ('operator+', 'operator-') and len(args) == 1:
+                n = it.eval(args[0])
+                if isinstance(n, Cell):
+                    n = n.value
+                return it.ptr_add(this_cell.value, n if meth == 'operator+' else (-n if isinstance(n, int) else -it.to_poly(n)))
+            if meth in ('operator+=', 'operator-=') and len(args) == 1:
+                n = it.eval(args[0])
+                it.write(this_cell, it.ptr_add(this_cell.value, n if meth == 'operator+=' else (-n if isinstance(n, int) else -it.to_poly(n))), node)
+                return this_cell
+            if meth == 'operator[]' and len(args) == 1:
+                return it.deref(it.ptr_add(this_cell.value, it.eval(args[0])), node)
+            if meth == 'operator->':
+                return this_cell.value
         if name.startswith('__gnu_cxx::operator-') and len(args) == 2:
             a = it.lval(args[0]).value if (args[0].get('lv') or args[0].get('xv')) else it.eval(args[0])
             b = it.lval(args[1]).value if (args[1].get('lv') or args[1].get('xv')) else it.eval(args[1])
@@ -138,4 +151,47 @@ class StdHooks(KernelHooks):
             return it.deref(Ptr(reg, it.to_poly(n) - Poly.const(1)), node)
         if meth == 'data':
             return Ptr(reg, 0)
+        if meth in ('reserve', 'shrink_to_fit'):
+            if args:
+                it.eval(args[0])
+            return None
+        if meth == 'clear':
+            o.fields['data'].value = Region((this_cell.name or 'vec') + '.data', 0, None, 'heap')
+            o.fields['n'].value = 0
+            return None
+        if meth == 'empty':
+            return (1 if n == 0 else 0) if isinstance(n, int) else it.compare('==', n, 0, node)
+        if meth in ('push_back', 'emplace_back') and len(args) == 1:
+            if not isinstance(n, int):
+                raise Unsupported('push_back on a vector of symbolic length at %s' % it.loc(node))
+            v = it.eval(args[0])
+            if isinstance(v, Cell):
+                v = v.value
+            nreg = Region((this_cell.name or 'vec') + '.data', n + 1, None, 'heap')
+            for k in range(n):
+                nreg.cell(k).value = reg.cell(k).value
+            nreg.cell(n).value = it.copy_value(v) if isinstance(v, Obj) else v
+            o.fields['data'].value = nreg
+            o.fields['n'].value = n + 1
+            return None
+        if meth == 'assign' and len(args) == 2:
+            a0 = it.eval(args[0])
+            a1 = it.eval(args[1])
+            if isinstance(a0, Ptr) and isinstance(a1, Ptr) and a0.region is a1.region:
+                cnt = a1.off - a0.off
+                if not isinstance(cnt, int) or cnt < 0:
+                    raise Unsupported('std::vector::assign over a range of symbolic length at %s' % it.loc(node))
+                vals = [it.read(it.deref(it.ptr_add(a0, k), node), node) for k in range(cnt)]
+            elif isinstance(a0, int):
+                cnt = a0
+                v = a1.value if isinstance(a1, Cell) else a1
+                vals = [v] * cnt
+            else:
+                raise Unsupported('std::vector::assign at %s' % it.loc(node))
+            nreg = Region((this_cell.name or 'vec') + '.data', cnt, None, 'heap')
+            for k, v in enumerate(vals):
+                nreg.cell(k).value = v
+            o.fields['data'].value = nreg
+            o.fields['n'].value = cnt
+            return None
         raise Unsupported('std::vector::%s at %s' % (meth, it.loc(node)))
